@@ -60,6 +60,13 @@ def _impl(tier, seed, search):
             L.close(f'normsq[len={ln_}]', b.normsq(vl), float(np.dot(vl, vl)), T9, float(np.max(np.abs(vl))) ** 2, dict(v=vl), sig=f'normsq:len{ln_}')
             L.close(f'norm(list)[len={ln_}]', b.norm(list(vl)), float(np.linalg.norm(vl)), T9, float(np.max(np.abs(vl))), dict(v=vl), sig=f'norm:len{ln_}')
         L.check('colvec', b.colvec(a).shape == (3, 1) and np.array_equal(b.colvec(a).flatten(), a), dict(v=a), 'colvec is not the column form')
+        for fn_, fv_ in (('list', list(a)), ('tuple', tuple(a)), ('row', a.reshape(1, 3)), ('column', a.reshape(3, 1)), ('column6', np.r_[a, c].reshape(6, 1))):
+            ok, r = L.noraise(f'colvec({fn_})', lambda: np.asarray(b.colvec(fv_)), dict(v=a, form=fn_), f'colvec({fn_})', sig='colvec:raises')
+            if ok:
+                n_ = np.asarray(fv_).size
+                L.check(f'colvec({fn_})', r.shape == (n_, 1) and np.array_equal(r.flatten(), np.asarray(fv_, float).flatten()), dict(v=a, form=fn_), f'colvec of a {fn_} is not the ({n_},1) column', sig='colvec:form', observed=list(r.shape))
+        ok, r = L.noraise('skew@colvec', lambda: (b.skew(a) @ b.colvec(c.reshape(3, 1))).flatten(), dict(a=a, b=c), 'skew(a) @ colvec(column b)', sig='colvec:raises')
+        if ok: L.close('skew(a)@colvec(b)=axb', r, np.cross(a, c), T9, sa * sc, dict(a=a, b=c), sig='colvec:form')
         # unitvec / unitvec_norm are v/|v| (and |v|) for every non-zero vector — small ones too (differential motions go down to 1e-9 and below)
         for ln_ in (1, 3, 6):
             vu = g.normal(size=ln_) * 10.0 ** g.uniform(-12, 6); nu = float(np.linalg.norm(vu))
@@ -89,6 +96,14 @@ def _impl(tier, seed, search):
             L.close('Twist3.ad-form', r[0], np.block([[sk(w_), sk(v_)], [np.zeros((3, 3)), sk(w_)]]), 1e-12, float(np.max(np.abs(Ssm))), dict(S=Ssm))
             E = scipy.linalg.expm(r[0])
             L.close('exp(ad S)=Ad(exp S)', E, r[1], 1e-7, max(1.0, float(np.max(np.abs(r[1])))), dict(S=Ssm))
+        # … and for screws with a small rotational part (1e-4 .. 3e-2 rad) and a moment perpendicular to it
+        wsm = inputs.unit_axis(g) * 10.0 ** g.uniform(-4, -1.5); vsm = np.cross(wsm / np.linalg.norm(wsm), g.normal(size=3)) * 10.0 ** g.uniform(-1, 1)
+        Ssc = np.r_[vsm, wsm]
+        ok, r = L.noraise('Twist3.Ad(small w)', lambda: (Twist3(Ssc).ad(), b.adjoint(b.trexp(Ssc)), Twist3(Ssc).Ad(), SE3.Exp(Ssc).Ad()), dict(S=Ssc), 'ad / Ad of a screw with a small rotational part')
+        if ok:
+            Esm = scipy.linalg.expm(r[0]); scs = max(1.0, float(np.max(np.abs(Esm))))
+            for nm_, A_ in (('adjoint(trexp(S))', r[1]), ('Twist3.Ad', r[2]), ('SE3.Exp(S).Ad', r[3])):
+                L.close(f'exp(ad S)={nm_}', Esm, A_, 1e-7, scs, dict(S=Ssc), what=f'exp(ad S) differs from {nm_} for a screw with a small rotational part', sig='exp(ad S)=Ad(exp S):small-w')
         # the same identities for degenerate twists: pure translation (w = 0) and rotation through the origin (v = 0)
         for Sd in (np.r_[g.normal(size=3) * 10.0 ** g.uniform(-2, 2), 0, 0, 0], np.r_[0, 0, 0, inputs.unit_axis(g) * float(g.uniform(0.1, 3.0))]):
             ok, r = L.noraise('Twist3.Ad(degenerate)', lambda: (Twist3(Sd).ad(), Twist3(Sd).Ad(), Twist3(Sd).SE3().Ad()), dict(S=Sd), 'Twist3.ad / Ad on a degenerate twist')
